@@ -206,6 +206,28 @@ theorem p2gIdx_ok (G : Glob) (cfg : Cfg) (p : Nat) (l : List Nat) (h : G.p2gIdx 
     · exact (Except.ok.inj h).symm
 
 
+/-! ### flips -/
+
+/-- **flip_pairs**: when `boundary_dofs(..., flip)` (that is `slice_indices(ax, idx, shape, ravel=True, flip)`)
+returns, the unflipped call returns too and the `k`-th dof of the flipped enumeration is the raveled `k`-th
+multi-index of the unflipped face with its coordinates reversed (`n-1-c`) on the flipped axes — so
+`join_boundaries` pairs the `k`-th dof of face 1 with the dof of face 2 that has reversed coordinates on
+the flipped axes (faces of any dimension). -/
+theorem flip_pairs (ax : Nat) (idx : Int) (shape : List Nat) (fl : List Bool) (l : List Nat)
+    (h : Slice.sliceIndices ax idx shape (some fl) = .ok l) :
+    ∃ i, Slice.sliceIndices ax idx shape none = .ok ((Slice.sliceMulti ax i shape none).map (fun I => Index.toSeq I shape)) ∧
+      l = (Slice.sliceMulti ax i shape none).map
+        (fun I => Index.toSeq (flipIdx shape (Slice.insertFalse ax fl) I) shape) := by
+  obtain ⟨hax, i, hw, rfl⟩ := sliceIndices_ok h
+  refine ⟨i, sliceIndices_none_of_ok hax hw, ?_⟩
+  simp only [Slice.sliceRavel, sliceMulti_flip, List.map_map]
+  rfl
+
+example : Slice.sliceIndices 1 (-1) [3, 2, 2] (some [true, false]) = .ok [10, 11, 6, 7, 2, 3] ∧
+    Slice.sliceIndices 1 (-1) [3, 2, 2] none = .ok [2, 3, 6, 7, 10, 11] ∧
+    (Slice.sliceMulti 1 1 [3, 2, 2] none).map (flipIdx [3, 2, 2] (Slice.insertFalse 1 [true, false])) =
+      [[2,1,0],[2,1,1],[1,1,0],[1,1,1],[0,1,0],[0,1,1]] := by decide
+
 /-! ### `patch_to_global` and `assemble_system` (any semiring of coefficients) -/
 
 section Matrices
